@@ -29,6 +29,8 @@ def scen_menu(quick):
     menu.append(lambda: M.scenario('o3', [S('g')], [A.ex('no-table'), A.ex('one-row'), A.ex('header-only', True)], outline=True))
     # two tables with different headers that share a row of identical values; placeholders in the name
     menu.append(lambda: M.scenario('o6 <a>-<b>', [S('g <a> <b>')], [M.examples('e', [['a', 'b'], ['1', '2']]), M.examples('e', [['b', 'a'], ['1', '2'], ['2', '1']])], outline=True))
+    # the same column name twice with different values: columns are applied in header order, so the first one wins
+    menu.append(lambda: M.scenario('o7 <a>/<b>', [S('g <a>')], [M.examples('e', [['a', 'b', 'a'], ['1', '2', '3']])], outline=True))
     if not quick:
         menu.append(lambda: M.scenario('o4 <a>', [S('g'), S('h <a>')], [A.ex('two-rows', True), A.ex('two-rows')], outline=True))
         menu.append(lambda: M.scenario('o5', [], [A.ex('no-table')], outline=True))
@@ -115,6 +117,8 @@ def check_ast(ast, acc, case):
             return
         if not A.compare(acc, case, 'pickle-header', route + ': pickle name / uri / language / source ids', P.p_c06(pk), P.p_c06(exp)):
             return
+    if after != before:
+        acc.violation('input-modified', case, 'Compiler.compile modified the document it was given')
 
 
 def run(ctx):
